@@ -4,6 +4,7 @@ from __future__ import annotations
 
 from .. import gen
 from ..monitors import ReadOnlyMonitor
+from ..ops import OpGen
 from . import common
 
 PROP = "C16"
@@ -30,7 +31,11 @@ def cfg_fn(rng):
     return gen.random_config(rng, p3d=0.15)
 
 
-WEIGHTS = {"update_attrs": 1.5, "ctrl": 1.0}
+WEIGHTS = {"features": 1.0, "update_attrs": 1.5, "ctrl": 1.0}
+
+
+class _Gen(OpGen):
+    toggle_lineage = True  # the lineage feature is also switched off / on alone
 
 
 def plan(tier, seed):
@@ -42,7 +47,7 @@ def run_shard(spec):
     if spec.get("kind") == "pytest":
         return common.run_pytest_shard(spec, PROP)
     return common.run_sessions(spec, PROP, make_monitors, cfg_fn, nsteps=(8, 20),
-                               weights=WEIGHTS, refusal_rate=0.3)
+                               weights=WEIGHTS, refusal_rate=0.3, opgen=_Gen)
 
 
 def floors(tier):
